@@ -78,3 +78,18 @@ int pthread_mutex_unlock(pthread_mutex_t* m){
     if (!shim_has_main || m != shim_mutex) return __pthread_mutex_unlock(m);
     hook(2*P_UNLOCK); int v = __pthread_mutex_unlock(m); hook(2*P_UNLOCK+1); return v;
 }
+
+/* a close() of a descriptor that is not open (EBADF) while a controller is watching: the second close of a double close.
+ * (Between the two closes another thread may have been given the same number for a file of its own, which the second close
+ * then takes away from it -- the harness saw exactly that as EBADF in its own open().write().) */
+#include <errno.h>
+extern int __close(int fd);
+volatile long shim_badclose = 0;
+volatile int shim_watch_close = 0;
+void shim_set_watch_close(int on){ shim_watch_close = on; if (on) shim_badclose = 0; }
+long shim_get_badclose(void){ return shim_badclose; }
+int close(int fd){
+    int v = __close(fd);
+    if (v < 0 && errno == EBADF && shim_watch_close) shim_badclose++;
+    return v;
+}
